@@ -50,6 +50,12 @@ class SetTyping:
             return False
         if isinstance(e, ast.Name):
             return e.id in env
+        if isinstance(e, ast.Subscript):
+            # candidates = [(set(), set()) for ...];  candidates[i][side]  is a set
+            b = e
+            while isinstance(b, ast.Subscript):
+                b = b.value
+            return isinstance(b, ast.Name) and ("[]" + b.id) in env
         if isinstance(e, ast.Attribute):
             d = dotted(e)
             if d in env:
@@ -63,6 +69,21 @@ class SetTyping:
             return self.is_set(e.body, env, f) or self.is_set(e.orelse, env, f)
         if isinstance(e, ast.BoolOp):
             return any(self.is_set(v, env, f) for v in e.values)
+        return False
+
+    def _is_setbox(self, e: ast.AST, env: Set[str], f: Func) -> bool:
+        """a list / tuple / list comprehension whose elements are (tuples or lists of) sets"""
+        if isinstance(e, (ast.ListComp, ast.GeneratorExp)):
+            return self._is_setbox_elt(e.elt, env, f)
+        if isinstance(e, (ast.List, ast.Tuple)):
+            return bool(e.elts) and any(self._is_setbox_elt(x, env, f) for x in e.elts)
+        return False
+
+    def _is_setbox_elt(self, e: ast.AST, env: Set[str], f: Func) -> bool:
+        if self.is_set(e, env, f):
+            return True
+        if isinstance(e, (ast.List, ast.Tuple)):
+            return any(self._is_setbox_elt(x, env, f) for x in e.elts)
         return False
 
     def _solve(self):
@@ -84,6 +105,11 @@ class SetTyping:
                             tgts, val = [n.target], n.value
                         elif isinstance(n, ast.AugAssign) and isinstance(n.op, (ast.BitOr, ast.BitAnd, ast.Sub)):
                             tgts, val = [n.target], n.value
+                        if val is not None and self._is_setbox(val, env, f):
+                            for t in tgts:
+                                if isinstance(t, ast.Name) and ("[]" + t.id) not in env:
+                                    env.add("[]" + t.id)
+                                    changed = True
                         if val is not None and self.is_set(val, env, f):
                             for t in tgts:
                                 d = dotted(t)
@@ -163,7 +189,7 @@ def rule_setiter(ctx, prop: str) -> RuleResult:
     if st is None:
         st = SetTyping(ix)
         ctx.cache["settyping"] = st
-    scope = ("src/exo/backend/", "src/exo/rewrite/", "src/exo/core/", "src/exo/API", "src/exo/frontend/")
+    scope = ("src/exo/backend/", "src/exo/rewrite/", "src/exo/core/", "src/exo/API", "src/exo/frontend/", "src/exo/stdlib/", "src/exo/libs/", "src/exo/platforms/")
     n = 0
     for f, node, cons, how in set_consumers(ix, st, scope):
         n += 1
@@ -191,6 +217,10 @@ def rule_setiter(ctx, prop: str) -> RuleResult:
 
 SET_TRIAGE.update(
     {
+        ("src/exo/stdlib/stdlib.py", "auto_stage_mem", "iter(candidates[i][side])"):
+            "taken only under `len(candidates[i][side]) == 1`: the single element",
+        ("src/exo/stdlib/halide_scheduling_ops.py", "get_affected_read_dim", "list(dims)"):
+            "a set of ints (dimension numbers, hash = value) with exactly one element at this point: more than one raises just above and [0] of an empty list raises",
         ("src/exo/backend/LoopIR_compiler.py", "find_all_subprocs.walk", "for sp in LoopIR_SubProcs(proc).result()"):
             "visit order only; the single consumer (compile_to_strings) sorts the result by proc name — checked by SORTEDEMIT",
         ("src/exo/backend/LoopIR_compiler.py", "find_all_mems", "[m for m in mems]"):
